@@ -756,6 +756,43 @@ theorem ms_unpad_same_decode (os1 os2 : Nat → Oracle) (l : Layout.ChannelLayou
   obtain ⟨h1, h2, h3, h4, h5⟩ := msDecodeFull_unpad os1 os2 l Fs sts ps hne hv hn hos frame_size fec sc
   exact ⟨_, msUnpad_serialize ps hne hv, h1, h2, h3, h4, h5⟩
 
+/-- `ms_pad_same_decode`: the same for `opus_multistream_packet_pad` — only the last stream changes (it becomes
+    `last'`, valid, same frames and configuration bits, by `ms_pad_spec`); with per-stream oracles related by the
+    per-stream frame-offset shift (`firstShift2`: 0 for the untouched streams) `msDecodeFull` gives the same
+    return value, stream states, copy-out calls, per-stream return values, and logs equal up to the shift. -/
+theorem ms_pad_same_decode (os1 os2 : Nat → Oracle) (l : Layout.ChannelLayout) (Fs : Int) (sts : List DecState)
+    (pre : List Packet) (last : Packet) (hv : ∀ p ∈ pre, Valid p) (hl : Valid last) (hfree : PadFree last)
+    (hn : pre.length + 1 = l.nbStreams) (newLen : Int) (hgt : ((msJoin pre last).length : Int) < newLen)
+    (frame_size fec : Int) (sc : Bool) :
+    ∃ last', msPad (msJoin pre last) newLen (pre.length + 1 : Nat) = .ok (msJoin pre last') ∧ Valid last' ∧
+      ((∀ i, i < pre.length + 1 →
+          OracleShift (os1 i) (os2 i) (firstShift2 ((pre ++ [last]).drop i) ((pre ++ [last']).drop i))) →
+       (msDecodeFull os2 l Fs sts (msJoin pre last') (msJoin pre last').length frame_size fec sc).ret =
+         (msDecodeFull os1 l Fs sts (msJoin pre last) (msJoin pre last).length frame_size fec sc).ret ∧
+       (msDecodeFull os2 l Fs sts (msJoin pre last') (msJoin pre last').length frame_size fec sc).sts =
+         (msDecodeFull os1 l Fs sts (msJoin pre last) (msJoin pre last).length frame_size fec sc).sts ∧
+       (msDecodeFull os2 l Fs sts (msJoin pre last') (msJoin pre last').length frame_size fec sc).copies =
+         (msDecodeFull os1 l Fs sts (msJoin pre last) (msJoin pre last).length frame_size fec sc).copies ∧
+       (msDecodeFull os2 l Fs sts (msJoin pre last') (msJoin pre last').length frame_size fec sc).trace.map Prod.fst =
+         (msDecodeFull os1 l Fs sts (msJoin pre last) (msJoin pre last).length frame_size fec sc).trace.map Prod.fst ∧
+       ∃ ds : List Int,
+         ds.length = (msDecodeFull os1 l Fs sts (msJoin pre last) (msJoin pre last).length frame_size fec sc).logs.length ∧
+         (msDecodeFull os2 l Fs sts (msJoin pre last') (msJoin pre last').length frame_size fec sc).logs =
+           List.zipWith (fun lg d => lg.map (Ev.shiftOff d))
+             (msDecodeFull os1 l Fs sts (msJoin pre last) (msJoin pre last).length frame_size fec sc).logs ds) := by
+  have hok : FramesOk last.toc last.frames := ⟨hl.toc_byte, valid_ne last hl, hl.frame_max, valid_dur last hl⟩
+  have hmin := minSize_minimal false last hl
+  simp only [Packet.lens] at hmin
+  have hlen : (msJoin pre last).length = (pre.flatMap (serialize true)).length + (serialize false last).length := by
+    simp [msJoin]
+  have hv' := outPacket_valid last.toc last.frames hok
+    ((serialize false last).length + (newLen - (msJoin pre last).length)) false true (by omega)
+  refine ⟨_, msPad_serialize pre last hv hl hfree newLen hgt, hv', ?_⟩
+  intro hos
+  obtain ⟨h1, h2, h3, h4, h5⟩ := msDecodeFull_pad os1 os2 l Fs sts pre last _ hv
+    ⟨hl, hv', outPacket_frames _ _ _ _ _, outPacket_toc _ _ _ _ _⟩ hn hos frame_size fec sc
+  exact ⟨h1, h2, h3, h4, h5⟩
+
 /-- The extension-free hypothesis is met by everything the library itself pads: zero padding (and no
     padding) has extension count 0 (`count_zeros` is C16's lemma), so packets produced by `out` with
     `pad` or by `opus_packet_pad` can be `cat`-ed / padded / unpadded again under the theorems above. -/
